@@ -96,6 +96,7 @@ CORPUS = [
     ("hydro", "center_of_mass_tetrahedral_mesh", ["tetrahedra_points"], "exact"),
 ]
 KIND = {(m, f): k for m, f, _, k in CORPUS}
+CASE_TREE = ("line_to_box", "line_segment_to_box")
 
 
 class Ctx:
@@ -324,6 +325,11 @@ def compare(op, a, b, ctx):
     L = _scale(op)
     if kind in ("dist", "dist1", "iter"):
         rel = 1e-6 if kind == "iter" else 1e-9
+        if op.get("deg") and op["fn"] in CASE_TREE:
+            # case-tree implementations evaluated exactly on a case boundary (seeded degenerate placement): an ulp-level
+            # difference may select the neighbouring case, whose answer differs by the function's own accuracy
+            # (C10/C11: 1e-6*L), not by 1e-9
+            rel = 1e-6
         if isinstance(ra, list) and isinstance(rb, list) and ra and rb:
             msg = deep_close(ra[0], rb[0], rel, rel * L)
             if msg:
@@ -345,6 +351,14 @@ def compare(op, a, b, ctx):
 
 
 def tolerated_outcome(plan, op, a, b):
+    """Outcome-class differences that are not engine divergences in the sense of C20."""
+    if op.get("op") == "narrow" and op.get("fn") == "epa":
+        # EPA's polytope-capacity assertion (allowed by C19 for smooth shapes, known finding F1 for polytopes) is reached
+        # or not depending on ulp-level differences in a path-dependent expansion, typically on degenerate input such as
+        # the same object passed twice; one engine asserting where the other returns is not compared
+        for x in (a, b):
+            if x.get("st") == "exc" and x.get("exc") == "AssertionError" and str(x.get("where", "")).startswith("epa.py"):
+                return True
     return False
 
 
